@@ -20,7 +20,7 @@ FORMULAS = [{"fid": "direct", "ast": {"k": "atom", "i": 1}},
 NODE_NS = "http://example.org/n/"
 
 
-def observed_locations(report):
+def observed_locations(report, base=None):
     """-> list of (what, focus node name, location dict or None) for every result (any depth) and each of its traces"""
     out = []
 
@@ -35,7 +35,8 @@ def observed_locations(report):
                 "endLine": en.get("line"), "endColumn": en.get("column")}
 
     def result(r):
-        focus = r["scalars"].get("focusNode", "").replace(NODE_NS, "")
+        focus = r["scalars"].get("focusNode", "")
+        focus = focus[len(base or NODE_NS):] if focus.startswith(base or NODE_NS) else focus
         out.append(("result", focus, loc(r)))
         for t in r["arrays"].get("trace", []):
             out.append(("trace", focus, loc(t)))
@@ -75,16 +76,20 @@ def run(tier):
                       "level": {"direct": rnd.choice(["violation", "warning"]), "viaNested": "violation"},
                       "lexical": lexical, "hasSource": s["hasMaps"] and s["hasSource"], "root": s["src"]["root"],
                       "additional": {f: sorted(ns) for f, ns in s["src"]["additional"].items() if ns},
-                      "rangeStyle": rnd.randrange(6), "compareStripped": True})
+                      "rangeStyle": rnd.randrange(6), "compareStripped": True, "ctxRef": rnd.randrange(3)})
     obs = vlib.run_harness("reporttree", cases, "c14", timeout=3000)
     oby = {o["id"]: o for o in obs}
     nloc = 0
+    noreport = []
     for s, c in zip(scen, cases):
         o = oby[c["id"]]
-        if o.get("err") or not o.get("report"):
-            V.disagree("validation failed: %s" % (o.get("err") or o.get("valid"))[:60], {"case": c, "error": o.get("err")})
+        if o.get("err"):
+            noreport.append(o["err"])     # no report, nothing for C14 to say
             continue
-        locs = observed_locations(o["report"])
+        if not o.get("report"):
+            V.disagree("report is not a valid document: %s" % (o.get("valid") or "")[:60], {"case": c})
+            continue
+        locs = observed_locations(o["report"], "http://example.org/m/" if c.get("ctxRef") == 2 else NODE_NS)
         if len(locs) < 8:
             raise vlib.Infra("expected results/traces about all four nodes, got %s" % locs)
         bad = None
@@ -110,8 +115,11 @@ def run(tier):
             continue
         if o.get("strippedEqual") != "yes":
             V.disagree("source maps change the report beyond locations", {"case": c, "strippedEqual": o.get("strippedEqual")})
+    if len(noreport) > len(cases) // 3:
+        raise vlib.Infra("%d of %d validations returned an error instead of a report: %s" % (len(noreport), len(cases), noreport[0][:300]))
     rc = V.finish()
     vlib.write_evidence("C14", tier, {
+        "validations_without_report": len(noreport),
         "states": sum(r.distinct for r in rs), "transitions": sum(r.generated for r in rs),
         "traces_validated_against_impl": len(cases),
         "evaluations": len(cases), "distinct_nontrivial": sum(1 for s in scen if s["hasMaps"]),
